@@ -3,8 +3,12 @@ module verif.local/engine
 go 1.23
 
 require (
+	github.com/btcsuite/btcd v0.21.0-beta
+	github.com/ethereum/go-ethereum v1.9.25
 	github.com/ontio/ontology-crypto v1.0.9
+	github.com/ontio/ontology-eventbus v0.9.1
 	github.com/polynetwork/poly v0.0.0
+	github.com/syndtr/goleveldb v1.0.1-0.20200815110645-5c35d600f0ca
 )
 
 require (
@@ -16,7 +20,6 @@ require (
 	github.com/aristanetworks/goarista v0.0.0-20190607111240-52c2a7864a08 // indirect
 	github.com/bits-and-blooms/bitset v1.2.1 // indirect
 	github.com/blocktree/go-owcrypt v1.1.10 // indirect
-	github.com/btcsuite/btcd v0.21.0-beta // indirect
 	github.com/btcsuite/btclog v0.0.0-20170628155309-84c8d2346e9f // indirect
 	github.com/btcsuite/btcutil v1.0.3-0.20201208143702-a53e38424cce // indirect
 	github.com/btcsuite/go-socks v0.0.0-20170105172521-4720035b7bfd // indirect
@@ -30,7 +33,6 @@ require (
 	github.com/deckarep/golang-set v1.7.1 // indirect
 	github.com/drand/kyber v1.1.4 // indirect
 	github.com/emirpasic/gods v1.12.0 // indirect
-	github.com/ethereum/go-ethereum v1.9.25 // indirect
 	github.com/gcash/bchd v0.16.5 // indirect
 	github.com/gcash/bchlog v0.0.0-20180913005452-b4f036f92fa6 // indirect
 	github.com/gcash/bchutil v0.0.0-20200506001747-c2894cd54b33 // indirect
@@ -56,7 +58,6 @@ require (
 	github.com/novifinancial/serde-reflection/serde-generate/runtime/golang v0.0.0-20210526181959-1694c58d103e // indirect
 	github.com/olekukonko/tablewriter v0.0.2-0.20190409134802-7e037d187b0c // indirect
 	github.com/ontio/ontology v1.11.1-0.20200812075204-26cf1fa5dd47 // indirect
-	github.com/ontio/ontology-eventbus v0.9.1 // indirect
 	github.com/orcaman/concurrent-map v0.0.0-20190826125027-8c72a8bb44f6 // indirect
 	github.com/phoreproject/bls v0.0.0-20200525203911-a88a5ae26844 // indirect
 	github.com/pkg/errors v0.9.1 // indirect
@@ -72,11 +73,11 @@ require (
 	github.com/stretchr/objx v0.2.0 // indirect
 	github.com/stretchr/testify v1.7.0 // indirect
 	github.com/switcheo/tendermint v0.34.14-2 // indirect
-	github.com/syndtr/goleveldb v1.0.1-0.20200815110645-5c35d600f0ca // indirect
 	github.com/tendermint/go-amino v0.15.1 // indirect
 	github.com/tendermint/iavl v0.14.0 // indirect
 	github.com/tendermint/tendermint v0.33.7 // indirect
 	github.com/tendermint/tm-db v0.5.1 // indirect
+	github.com/valyala/bytebufferpool v1.0.0 // indirect
 	github.com/zquestz/grab v0.0.0-20190224022517-abcee96e61b1 // indirect
 	golang.org/x/crypto v0.0.0-20220214200702-86341886e292 // indirect
 	golang.org/x/net v0.0.0-20211112202133-69e39bad7dc2 // indirect
